@@ -9,6 +9,7 @@ CONSTANTS
   WM = 12
   ConstructSlots <- Only1
   Unbounded = FALSE
+  ViewIds <- NoViews
   Ops <- ConvOps
 INVARIANTS TypeOK Refines NoAlias NoUseAfterFree NoDoubleFree NoLeak ConfigKept RoundTrip
 PROPERTIES SourceUnchanged
